@@ -58,7 +58,7 @@ PROPS["C03"] = dict(
     assumptions=[],
     level_text="Kani/CBMC proves check_options equal to a reference written from the option semantics for every 32-bit mask, request type, scheme and party "
                "(loop-free, complete); Verus proves every mask helper against the flag its name denotes, and check_options as a whole - type, scheme, party and the initiator-domain lists of any length (some source-host hash listed, none excluded) - for every mask and request; request classification over the alias/scheme tables",
-    level_note="the Kani domain-list harness stays as a bounded twin (it replays counterexamples on the real crate); the splitting of the option text is trusted",
+    level_note="the Kani domain-list harness stays as a bounded twin (it replays counterexamples on the real crate); the option text table and the option application are under contract (units c03_option_text, c03_apply_options), the rest of NetworkFilter::parse between them is not",
     design_ref="DESIGN.md section 4, C03",
 )
 
@@ -106,8 +106,8 @@ PROPS["C07"] = dict(
              "String obeys the hash key model (vstd axiom)"],
     assumptions=[],
     level_text="Verus proves the tag test inside check/check_all (a hit is returned iff it matches and its tag is enabled), which lists are probed with the enabled set "
-               "(important, tagged, exception) and that tags_with_set assigns the set and rebuilds the active tagged list",
-    level_note="set algebra of enable/disable is trusted",
+               "(important, tagged, exception) that tags_with_set assigns the set and rebuilds the active tagged list from exactly the rules whose tag is in it (the tag test itself is under contract, also for a rule decoded without a tag), that use_tags / enable_tags / disable_tags are assignment / union / difference, and that Engine::deserialize keeps the caller's set and rebuilds the active list for it",
+    level_note="the iterator chains that build the new tag set in enable_tags / disable_tags are lifted (R6) with the union / difference as their stated contract; witness histories (vf/witness/c07_tags.rs) cover same-bucket tags, a load and verbatim tag names on the real crate",
     design_ref="DESIGN.md section 4, C07",
 )
 
@@ -257,8 +257,8 @@ PROPS["C16"] = dict(
                "and, for every rule database and host, that hostname_cosmetic_resources returns exactly: hide selectors filed under some lookup hash minus those unhidden under any lookup hash (plus the unscoped misc generic selectors minus the unhidden ones unless generichide), "
                "procedural/action filters minus their exceptions, every unhidden selector as exceptions, and the scriptlet injections requested under some lookup hash minus identical exceptions (none under a blanket exception); "
                "that store_rule files a rule under every hostname and entity hash in the bin its kind names (the exception bin for `#@#` rules) and under every negated location in the opposite bin, and nothing else; "
-               "that add_filter sends unscoped rules to the generic stores, scoped rules to the scoped database, and a rule with only negated locations to both (as its hidden generic rule)",
-    level_note="parsing of the location list and the registrable-domain lookup (url_parser / PSL) are not under contract",
+               "that add_filter sends unscoped rules to the generic stores, scoped rules to the scoped database, and a rule with only negated locations to both (as its hidden generic rule); that CosmeticFilter::parse never yields an exception with negated locations, a scriptlet rule that is not one plain argument text without action, or a rule without locations that is an exception, a scriptlet rule or carries an action; that each entry of the location list gets the kind and text its `~` / `.*` spelling names and that the four hash lists of a rule hold exactly the hashes of the entries of their kind",
+    level_note="the registrable-domain lookup (addr crate / PSL), CSS validation and the split(',') that feeds the per-entry closure of the location list are not under contract",
     design_ref="DESIGN.md section 4, C16",
 )
 
@@ -312,8 +312,8 @@ PROPS["C11"] = dict(
     assumptions=[],
     level_text="Verus proves for ALL UTF-8 strings that AbstractNetworkFilter::parse (offset arithmetic around '@@', '$', '|', '||') and the metadata cut-off loop never slice out of bounds or off a character boundary and terminate; "
                "that parse_filter routes each line to the parser its detected kind and the format name, returns exactly that parser's rule, never yields a rule of the excluded kind, and that hosts lines only yield parse_hosts_style rules; "
-               "the unreachable!() arm of the hosts branch is proved unreachable; that parse_hosts_style refuses what is not a plain dotted hostname and otherwise parses `||` + the SAME normal form of the host that a `||` rule gets + `^` (no slice off a boundary for any text); and that the pattern block of NetworkFilter::parse (hostname cut, '*' trimming, scheme detection) takes no slice out of bounds or off a character boundary and overflows no index, for every pattern string",
-    level_note="the big per-kind parsers are uninterpreted; line independence of the list-level pipeline is not decided",
+               "the unreachable!() arm of the hosts branch is proved unreachable; that parse_hosts_style refuses what is not a plain dotted hostname and otherwise parses `||` + the SAME normal form of the host that a `||` rule gets + `^` (no slice off a boundary for any text); that the pattern block of NetworkFilter::parse (hostname cut, '*' trimming, scheme detection) takes no slice out of bounds or off a character boundary and overflows no index, for every pattern string; and that CosmeticFilter::parse, the per-entry closure of its location list, parse_before_sharp and the two action slices of parse_after_sharp_nonscript do the same for every line (with the shape of the three action tokens checked on the function's own constants)",
+    level_note="of NetworkFilter::parse the pattern block, the option table and the option application are under contract, of CosmeticFilter::parse its frame, the location list and the action slices; CSS validation, scriptlet-argument splitting beyond totality, key_from_selector (witness inputs only) and the list-level pipeline (map / filter_map / partition_map closures: line independence) are not decided",
     design_ref="DESIGN.md section 4, C11",
 )
 
